@@ -116,65 +116,65 @@ theorem includePathF_reachL (n : Nat) {a st : PState σ} (acc : Bytes) (h0 : Rea
 
 /-! ### functions that may cross a line end -/
 
-theorem RC.line' {a b : PState σ} {tl} (h : RC E a tl b) (h1 : tl ≤ 1) {c : PState σ}
-    (hl : ∀ {x : PState σ}, ReachL E x b → ReachL E x c) : RC E a tl c :=
-  RC.line E h (hl (ReachL.refl E b)) h1
+theorem RC.line' {a b : PState σ} (h : RC E a 0 b) {c : PState σ}
+    (hl : ∀ {x : PState σ}, ReachL E x b → ReachL E x c) : RC E a 0 c :=
+  RC.line E h (hl (ReachL.refl E b))
 
-theorem skipToNextLine_RC {a st : PState σ} {tl} (h0 : RC E a tl st) (h1 : tl ≤ 1) :
-    RC E a (tl + 1) (skipToNextLine E st) := by
+theorem skipToNextLine_RC {a st : PState σ} (h0 : RC E a 0 st) :
+    RC E a 1 (skipToNextLine E st) := by
   unfold skipToNextLine
-  have h2 : RC E a tl (skipLoopF E (fuelOf E st) st) := RC.line' E h0 h1 (skipLoopF_reachL E _)
+  have h2 : RC E a 0 (skipLoopF E (fuelOf E st) st) := RC.line' E h0 (skipLoopF_reachL E _)
   simp only
   split
-  · rename_i h; exact RC.advNL E h2 h h1
+  · rename_i h; exact RC.advNL E h2 h (by omega)
   · exact RC.mono E h2 (by omega)
 
-theorem parseComment_RC {a st : PState σ} {tl} (h0 : RC E a tl st) (h1 : tl ≤ 1) (h : st.current.ty = .comment) :
-    RC E a tl (parseComment E st).2 := RC.line' E h0 h1 (fun hx => parseComment_reachL E hx h)
-theorem parseDate_RC {a st : PState σ} {tl} (h0 : RC E a tl st) (h1 : tl ≤ 1) :
-    RC E a tl (parseDate E st).2 := RC.line' E h0 h1 (parseDate_reachL E)
-theorem parseStatus_RC {a st : PState σ} {tl} (h0 : RC E a tl st) (h1 : tl ≤ 1) :
-    RC E a tl (parseStatus E st).2 := RC.line' E h0 h1 (parseStatus_reachL E)
-theorem parseAmount_RC {a st : PState σ} {tl} (h0 : RC E a tl st) (h1 : tl ≤ 1) :
-    RC E a tl (parseAmount E st).2 := RC.line' E h0 h1 (parseAmount_reachL E)
-theorem parseCost_RC {a st : PState σ} {tl} (h0 : RC E a tl st) (h1 : tl ≤ 1)
+theorem parseComment_RC {a st : PState σ} (h0 : RC E a 0 st) (h : st.current.ty = .comment) :
+    RC E a 0 (parseComment E st).2 := RC.line' E h0 (fun hx => parseComment_reachL E hx h)
+theorem parseDate_RC {a st : PState σ} (h0 : RC E a 0 st) :
+    RC E a 0 (parseDate E st).2 := RC.line' E h0 (parseDate_reachL E)
+theorem parseStatus_RC {a st : PState σ} (h0 : RC E a 0 st) :
+    RC E a 0 (parseStatus E st).2 := RC.line' E h0 (parseStatus_reachL E)
+theorem parseAmount_RC {a st : PState σ} (h0 : RC E a 0 st) :
+    RC E a 0 (parseAmount E st).2 := RC.line' E h0 (parseAmount_reachL E)
+theorem parseCost_RC {a st : PState σ} (h0 : RC E a 0 st)
     (h : st.current.ty = .at ∨ st.current.ty = .atAt) :
-    RC E a tl (parseCost E st).2 := RC.line' E h0 h1 (fun hx => parseCost_reachL E hx h)
-theorem parseBalanceAssertion_RC {a st : PState σ} {tl} (h0 : RC E a tl st) (h1 : tl ≤ 1)
+    RC E a 0 (parseCost E st).2 := RC.line' E h0 (fun hx => parseCost_reachL E hx h)
+theorem parseBalanceAssertion_RC {a st : PState σ} (h0 : RC E a 0 st)
     (h : st.current.ty = .equals ∨ st.current.ty = .doubleEquals) :
-    RC E a tl (parseBalanceAssertion E st).2 := RC.line' E h0 h1 (fun hx => parseBalanceAssertion_reachL E hx h)
-theorem skipUntilF_RC (b n) {a st : PState σ} {tl} (h0 : RC E a tl st) (h1 : tl ≤ 1) :
-    RC E a tl (skipUntilF E b n st) := RC.line' E h0 h1 (skipUntilF_reachL E b n)
-theorem subValueF_RC (n acc) {a st : PState σ} {tl} (h0 : RC E a tl st) (h1 : tl ≤ 1) :
-    RC E a tl (subValueF E n st acc).2 := RC.line' E h0 h1 (subValueF_reachL E n acc)
-theorem includePathF_RC (n acc) {a st : PState σ} {tl} (h0 : RC E a tl st) (h1 : tl ≤ 1) :
-    RC E a tl (includePathF E n st acc).2 := RC.line' E h0 h1 (includePathF_reachL E n acc)
+    RC E a 0 (parseBalanceAssertion E st).2 := RC.line' E h0 (fun hx => parseBalanceAssertion_reachL E hx h)
+theorem skipUntilF_RC (b n) {a st : PState σ} (h0 : RC E a 0 st) :
+    RC E a 0 (skipUntilF E b n st) := RC.line' E h0 (skipUntilF_reachL E b n)
+theorem subValueF_RC (n acc) {a st : PState σ} (h0 : RC E a 0 st) :
+    RC E a 0 (subValueF E n st acc).2 := RC.line' E h0 (subValueF_reachL E n acc)
+theorem includePathF_RC (n acc) {a st : PState σ} (h0 : RC E a 0 st) :
+    RC E a 0 (includePathF E n st acc).2 := RC.line' E h0 (includePathF_reachL E n acc)
 
 grind_pattern RC.mono => RC E a tl b, RC E a tl' b
 grind_pattern RC.advOther => RC E a tl st, advance E st
 grind_pattern RC.advNL => RC E a tl st, advance E st
 grind_pattern RC.advIndent => RC E a tl st, advance E st
-grind_pattern RC.err => RC E a tl st, error st msg
-grind_pattern skipToNextLine_RC => RC E a tl st, skipToNextLine E st
-grind_pattern parseComment_RC => RC E a tl st, parseComment E st
-grind_pattern parseDate_RC => RC E a tl st, parseDate E st
-grind_pattern parseStatus_RC => RC E a tl st, parseStatus E st
-grind_pattern parseAmount_RC => RC E a tl st, parseAmount E st
-grind_pattern parseCost_RC => RC E a tl st, parseCost E st
-grind_pattern parseBalanceAssertion_RC => RC E a tl st, parseBalanceAssertion E st
-grind_pattern skipUntilF_RC => RC E a tl st, skipUntilF E b n st
-grind_pattern subValueF_RC => RC E a tl st, subValueF E n st acc
-grind_pattern includePathF_RC => RC E a tl st, includePathF E n st acc
+grind_pattern RC.err => RC E a 0 st, error st msg
+grind_pattern skipToNextLine_RC => RC E a 0 st, skipToNextLine E st
+grind_pattern parseComment_RC => RC E a 0 st, parseComment E st
+grind_pattern parseDate_RC => RC E a 0 st, parseDate E st
+grind_pattern parseStatus_RC => RC E a 0 st, parseStatus E st
+grind_pattern parseAmount_RC => RC E a 0 st, parseAmount E st
+grind_pattern parseCost_RC => RC E a 0 st, parseCost E st
+grind_pattern parseBalanceAssertion_RC => RC E a 0 st, parseBalanceAssertion E st
+grind_pattern skipUntilF_RC => RC E a 0 st, skipUntilF E b n st
+grind_pattern subValueF_RC => RC E a 0 st, subValueF E n st acc
+grind_pattern includePathF_RC => RC E a 0 st, includePathF E n st acc
 
-theorem postingOpen_RC {a st : PState σ} {tl} (h0 : RC E a tl st) (h1 : tl ≤ 1) :
-    RC E a tl (postingOpen E st).2 := RC.line' E h0 h1 (postingOpen_reachL E)
-theorem postingTail_RC {cl} (hc : ClosingOk cl) {a st : PState σ} {tl} (h0 : RC E a tl st) (h1 : tl ≤ 1) :
-    RC E a tl (postingTail E cl st).2 := RC.line' E h0 h1 (postingTail_reachL E hc)
-theorem txDescription_RC {a st : PState σ} {tl} (h0 : RC E a tl st) (h1 : tl ≤ 1) :
-    RC E a tl (txDescription E st).2 := RC.line' E h0 h1 (txDescription_reachL E)
-grind_pattern postingOpen_RC => RC E a tl st, postingOpen E st
-grind_pattern postingTail_RC => RC E a tl st, postingTail E cl st
-grind_pattern txDescription_RC => RC E a tl st, txDescription E st
+theorem postingOpen_RC {a st : PState σ} (h0 : RC E a 0 st) :
+    RC E a 0 (postingOpen E st).2 := RC.line' E h0 (postingOpen_reachL E)
+theorem postingTail_RC {cl} (hc : ClosingOk cl) {a st : PState σ} (h0 : RC E a 0 st) :
+    RC E a 0 (postingTail E cl st).2 := RC.line' E h0 (postingTail_reachL E hc)
+theorem txDescription_RC {a st : PState σ} (h0 : RC E a 0 st) :
+    RC E a 0 (txDescription E st).2 := RC.line' E h0 (txDescription_reachL E)
+grind_pattern postingOpen_RC => RC E a 0 st, postingOpen E st
+grind_pattern postingTail_RC => RC E a 0 st, postingTail E cl st
+grind_pattern txDescription_RC => RC E a 0 st, txDescription E st
 
 theorem parsePosting_RC {a st : PState σ} {tl} (h0 : RC E a tl st) (h : st.current.ty = .indent) :
     RC E a 1 (parsePosting E st).2 := by
@@ -214,10 +214,10 @@ theorem txHeader_RC {a st : PState σ} (h0 : RC E a 0 st) : RC E a 1 (txHeader E
 
 theorem parseTransaction_RC {a st : PState σ} (h0 : RC E a 0 st) : RC E a 2 (parseTransaction E st).2 := by
   unfold parseTransaction
-  have hd := parseDate_RC E h0 (by omega)
+  have hd := parseDate_RC E h0
   split
   · rename_i heq; rw [heq] at hd
-    exact RC.mono E (skipToNextLine_RC E hd (by omega)) (by omega)
+    exact RC.mono E (skipToNextLine_RC E hd) (by omega)
   · rename_i heq; rw [heq] at hd
     simp only
     exact postingsF_RC E _ (txHeader_RC E hd) (by omega)
@@ -250,13 +250,13 @@ theorem parseSubdirectivesF_RC (n : Nat) {a st : PState σ} {tl} (m) (h0 : RC E 
             · split
               · rename_i hdv
                 have hC := RC.advOther E hB (by simp [hdv]) (by simp [hdv]) (by omega)
-                exact ih _ (subValueF_RC E _ _ hC (by omega)) (by omega)
-              · exact ih _ (skipToNextLine_RC E hB (by omega)) (by omega)
+                exact ih _ (subValueF_RC E _ _ hC) (by omega)
+              · exact ih _ (skipToNextLine_RC E hB) (by omega)
 
-theorem parseSubdirectives_RC {a st : PState σ} {tl} (h0 : RC E a tl st) (h1 : tl ≤ 1) :
-    RC E a 2 (parseSubdirectives E st).2 := parseSubdirectivesF_RC E _ _ h0 h1
+theorem parseSubdirectives_RC {a st : PState σ} (h0 : RC E a 0 st) :
+    RC E a 2 (parseSubdirectives E st).2 := parseSubdirectivesF_RC E _ _ h0 (by omega)
 
-grind_pattern parseSubdirectives_RC => RC E a tl st, parseSubdirectives E st
+grind_pattern parseSubdirectives_RC => RC E a 0 st, parseSubdirectives E st
 
 theorem parseAccountDirective_RC (p) {a st : PState σ} (h0 : RC E a 0 st) :
     RC E a 2 (parseAccountDirective E p st).2 := by
